@@ -178,7 +178,10 @@ def shape(e, roles=None, depth=20):
             return "size_of<%s>" % short_ty(e.t["callee_args"][0])
         if nice(c) in ("Index::index", "IndexMut::index_mut") and len(e.args) == 2:
             return "%s[%s]" % (shape(e.args[0], roles, depth - 1), shape(e.args[1], roles, depth - 1))
-        return "%s(%s)" % (cid, ",".join(shape(a, roles, depth - 1) for a in e.args))
+        parts = [shape(a, roles, depth - 1) for a in e.args]
+        if cid in ("PartialEq::eq", "PartialEq::ne") and len(parts) == 2 and parts[1] < parts[0]:
+            parts.reverse()  # equality is symmetric
+        return "%s(%s)" % (cid, ",".join(parts))
     if isinstance(e, Unknown):
         return "?%s" % e.what
     return "?"
@@ -491,3 +494,14 @@ def match_any(patterns, text):
         if wild(p, text):
             return p
     return None
+
+
+def eqs(kind, a, b):
+    """Canonical shape of an equality call PartialEq::<kind>(a, b): operands sorted, as shape() prints them."""
+    x, y = sorted([a, b])
+    return "PartialEq::%s(%s,%s)" % (kind, x, y)
+
+
+def eq_wild(kind, a, b, text):
+    """Match an equality-call shape against operand patterns (with `*`) in either order."""
+    return wild("PartialEq::%s(%s,%s)" % (kind, a, b), text) or wild("PartialEq::%s(%s,%s)" % (kind, b, a), text)
